@@ -74,7 +74,16 @@ pub fn expanding_table(lang: &str) -> Vec<(char, &'static str)> {
         "fr" => vec![('Æ', "AE"), ('æ', "ae"), ('Œ', "OE"), ('œ', "oe"), ('Ø', "OE"), ('ø', "oe")],
         "xk" => vec![('ゟ', "より")],
         // the reduce-only language: every entry of its reduce table (two of them do not lengthen the text)
-        "xr" => vec![('ß', "ss"), ('ẞ', "SS"), ('é', "e"), ('É', "E"), ('ø', "oe"), ('Ø', "OE"), ('w', "v"), ('W', "V"), ('x', "ks"), ('X', "KS")],
+        "xr" => vec![('ß', "ss"), ('ẞ', "SS"), ('é', "e"), ('É', "E"), ('ø', "oe"), ('Ø', "OE"), ('w', "v"), ('W', "V"), ('x', "ks"), ('X', "KS"), ('å', "aa"), ('Å', "AA")],
+        _ => vec![],
+    }
+}
+
+/// Letters whose decomposed spelling (base + mark) the language's REDUCTION table lists next to the precomposed one
+/// (nothing is composed; both spellings are folded to the same letters). `composed` / `base` / `mark` as in `accents`.
+pub fn reduced_pairs(lang: &str) -> Vec<Accent> {
+    match lang {
+        "xr" => vec![Accent { composed: 'å', base: 'a', mark: '\u{30a}' }, Accent { composed: 'Å', base: 'A', mark: '\u{30a}' }],
         _ => vec![],
     }
 }
@@ -150,11 +159,22 @@ pub fn fold(lang: &str, c: char) -> Option<String> {
 /// Normalised spelling of one word by the harness's own tables: compose, fold accents, lower-case.
 pub fn norm_word(lang: &str, w: &str) -> String {
     let mut out = String::new();
-    for c in compose(lang, &cv(w)) {
+    let cs = compose(lang, &cv(w));
+    let pairs = reduced_pairs(lang);
+    let mut i = 0;
+    while i < cs.len() {
+        let mut c = cs[i];
+        if i + 1 < cs.len() {
+            if let Some(p) = pairs.iter().find(|p| p.base == cs[i] && p.mark == cs[i + 1]) {
+                c = p.composed;
+                i += 1;
+            }
+        }
         let folded = fold(lang, c).unwrap_or_else(|| c.to_string());
         for x in folded.chars() {
             out.extend(x.to_lowercase());
         }
+        i += 1;
     }
     out
 }
